@@ -198,6 +198,11 @@ pub enum Op {
     /// one more frame of the peer that was already in the receive buffer when the connection
     /// asked to close: the application finishes the buffer (model-free oracles from here on)
     PeerAfterClose { kind: u8 },
+    /// a second CONNECT on the established connection, announcing other limits (must be refused
+    /// and change nothing)
+    ConnectAgain,
+    /// DISCONNECT carrying a long Reason String (v5.0): larger than a small Maximum Packet Size
+    DisconnectBig,
     /// role Any: play the other side of the protocol on the next connection
     SwapSide,
     /// regulate_for_store on a v5 PUBLISH (alias: 0 none, n = topic + alias, 0x80|n alias only)
@@ -942,6 +947,26 @@ impl Solo {
                     self.handle(&l);
                 }
             }
+            Op::ConnectAgain => {
+                if self.w.m.st == St::Disc || !self.acting_client {
+                    return;
+                }
+                let mut p = self.cfg.connect_pkt(false);
+                if v == 5 {
+                    p.props = vec![Prop::SessionExpiry(7), Prop::ReceiveMax(9), Prop::MaxPacketSize(1000), Prop::TopicAliasMax(9)];
+                }
+                p.keep_alive = 77;
+                self.app_send(&p);
+            }
+            Op::DisconnectBig => {
+                if v != 5 {
+                    return;
+                }
+                let mut p = Pkt::new(5, DISCONNECT);
+                p.rc = Some(0);
+                p.props.push(Prop::ReasonString("the application says goodbye with a rather long explanation of its reasons".into()));
+                self.app_send(&p);
+            }
             Op::SwapSide => {
                 if self.cfg.role == Role::Any && self.w.m.st == St::Disc && !self.w.want_close {
                     self.acting_client = !self.acting_client;
@@ -1284,7 +1309,12 @@ pub fn gen_op(s: &Solo, r: &mut Rng, prof: &GenProfile) -> Op {
         }
         8 => Op::Close { partial: if r.chance(1, 3) { r.range(1, 20) as u16 } else { 0 } },
         9 => Op::Crash,
-        10 => Op::Disconnect { rc: if r.chance(1, 2) { 0 } else { 0x04 } },
+        10 => match r.below(4) {
+            0 => Op::DisconnectBig,
+            1 => Op::ConnectAgain,
+            2 if s.acting_client => Op::Connack { sp: r.chance(1, 2), rc: *r.pick(&[0u8, 0x87]) },
+            _ => Op::Disconnect { rc: if r.chance(1, 2) { 0 } else { 0x04 } },
+        },
         11 => Op::Erase { nth: r.below(4) as u8 },
         12 => match r.below(6) {
             0 => Op::SetPing { ms: *r.pick(&[None, Some(0), Some(3000), Some(7000)]) },
